@@ -1334,6 +1334,10 @@ func compileExpr(context *funcContext, reg int, expr ast.Expr, ec *expcontext) i
 		childcontext := newFuncContext(context.Proto.SourceName, context)
 		compileFunctionExpr(childcontext, ex, ec)
 		protono := len(context.Proto.FunctionPrototypes)
+		if protono > opMaxArgBx {
+			// CLOSURE names the prototype in its 18-bit Bx field
+			raiseCompileError(context, sline(ex), "function has too many nested functions")
+		}
 		context.Proto.FunctionPrototypes = append(context.Proto.FunctionPrototypes, childcontext.Proto)
 		code.AddABx(OP_CLOSURE, sreg, protono, sline(ex))
 		for _, upvalue := range childcontext.Upvalues.List() {
